@@ -34,15 +34,25 @@ func (w *callRecorder) Write(p []byte) (int, error) {
 func vFasta(name, seq []byte) Val { return L(B(name), B(seq)) }
 
 func fastaItems(it iter.Seq2[*fasta.Fasta, error], limit int) Val {
-	items := Val{K: 'l'}
+	// retain every yielded record until the iteration is over, then encode: a
+	// record whose slices alias the reader's buffer is corrupted by later reads
+	type pair struct {
+		fa  *fasta.Fasta
+		err error
+	}
+	var got []pair
 	for fa, err := range it {
-		if err != nil {
+		got = append(got, pair{fa, err})
+		if len(got) >= limit {
+			break
+		}
+	}
+	items := Val{K: 'l'}
+	for _, g := range got {
+		if g.err != nil {
 			items.L = append(items.L, L(I(1)))
 		} else {
-			items.L = append(items.L, L(I(0), vFasta(fa.Name, fa.Sequence)))
-		}
-		if len(items.L) >= limit {
-			break
+			items.L = append(items.L, L(I(0), vFasta(g.fa.Name, g.fa.Sequence)))
 		}
 	}
 	return items
@@ -167,6 +177,10 @@ var kFastaWrite = register(&Kind{Name: "fasta_write",
 			b, err := fa.MarshalText()
 			if err != nil {
 				m = vErr
+			} else if !marshalKeeps(b, func() {
+				(&fasta.Fasta{Name: []byte("another record"), Sequence: bytes.Repeat([]byte("T"), 200)}).MarshalText()
+			}) {
+				m = vMarshalAliased
 			} else {
 				m = vOk(B(b))
 			}
@@ -609,6 +623,12 @@ func init() {
 			for _, o := range c.fastaLayoutOpts() {
 				c.Run(&layoutOnly, L(recordsVal(recs), B(c.fastaLayout(recs, o))), true, "layout/impl-only-large", o.describe)
 			}
+		}
+		{
+			r := &fasta.Fasta{Name: c.fastaBytes(1<<20+1, "\r\n", false), Sequence: []byte("ACGT")}
+			r2 := &fasta.Fasta{Name: []byte("b"), Sequence: []byte("GG")}
+			c.Run(&writeOnly, L(B(r.Name), B(r.Sequence)), true, "write/impl-only-long-name")
+			c.Run(&layoutOnly, L(recordsVal([]*fasta.Fasta{r2, r, r2}), B(fastaWritten([]*fasta.Fasta{r2, r, r2}))), true, "layout/impl-only-long-name")
 		}
 		c.Note("inputs above ~300 KB (sequence lengths 200,000 and 1 MiB+1) are run on the implementation with the direct oracle only")
 	})
